@@ -545,8 +545,27 @@ static int run_c08(Prng &r, int kind_forced, const std::string &ops_override) {
         bl = pr.run; skl = pr.skip;
         for (size_t i = 0; i < bl.digests.size(); i++) g_obs.add("lans:" + tag + "." + std::to_string(i), bl.digests[i]);
       }
+      // optionally an iterator is open across the first save of the LOADED object
+      ClientState ls; CallResult lu2; Call lo_, ln1, ln2, lcl; bool liter = with_battery && r.chance(1, 3), liter_ok = false;
+      if (liter) {
+        lo_.op = supported(t.kind, O_TABLE, t.p) ? C_TABLE : C_EXTPREFIX; lo_.handle = 0; if (lo_.op == C_EXTPREFIX) lo_.arg = q.prefixes[0];
+        ln1.op = C_NEXT; ln1.handle = 0; ln1.count = (int)r.range(1, 4);
+        ln2.op = C_NEXT; ln2.handle = 0; ln2.count = 1 << 20;
+        lcl.op = C_CLOSE; lcl.handle = 0;
+        std::vector<Call> scan = {lo_, ln1, ln2, lcl};
+        begin("ref", "undisturbed-scan-of-loaded-object");
+        Probe ps = probe_script(lo.d, scan, std::string(kind_name(t.kind)) + " loaded scan");
+        liter_ok = true; for (char c : ps.skip) if (c) liter_ok = false;
+        if (liter_ok) { lu2.digest = ps.run.digests[2]; exec_call(lo.d, ls, lo_); exec_call(lo.d, ls, ln1); }
+      }
       begin("var", "save-of-loaded-object");
       std::string img2 = save_image(lo.d, (size_t)r.range(1, 4096));
+      if (liter && liter_ok) {
+        begin("var", "iterator-continues-after-save-of-loaded-object");
+        CallResult c2 = exec_call(lo.d, ls, ln2); ls.close_all();
+        if (c2.digest != lu2.digest) { emit("violation", "save_disturbs_open_iterator", "C08.a (loaded object) " + triple_str(t) + " elements drawn after the first save differ from an undisturbed scan"); return 1; }
+        g_stats["iterators_open_across_first_save"]++;
+      }
       g_obs.add("img:" + tag + ".resave", dig_bytes(img2));
       g_stats["resave_byte_identical"] += (img2 == img1);
       g_stats["resave_total"]++;
